@@ -345,6 +345,15 @@ def run_property(prop, tier, *, jobs=None, only=None, verbose=False,
         if ex.get("fault"):
             faults.append(f"extra {ex['name']}: {ex['fault']}")
         n_reported = 0
+        if ex.get("kind") == "spec-validation":
+            # a specification function that is not the definition it claims
+            # to be: the checker is wrong, not the code
+            for fl in ex.get("failures", []):
+                faults.append(f"extra {ex['name']}: {fl['key']}: {fl['what']}")
+            extra_summ.append({k: v for k, v in ex.items()
+                               if k not in ("failures",)}
+                              | dict(n_failures=len(ex.get("failures", []))))
+            continue
         for fl in ex.get("failures", []):
             key = f"{ex['name']}|{fl['key']}"
             kf = known_match(known, prop, key)
